@@ -75,9 +75,16 @@ def _periodic_static_data(draw, tier):
     return spec
 
 
+@st.composite
+def _config(draw, tier):
+    # (an integer draw, not one_of over repeated strategies: one_of drops duplicates)
+    if draw(st.integers(0, 5)) == 5:
+        return draw(_periodic_static_data(tier))
+    return draw(T.config(tier, resume=False))
+
+
 def strategy(tier):
-    base = T.config(tier, resume=False)
-    return st.one_of(base, base, base, base, base, _periodic_static_data(tier))
+    return _config(tier)
 
 
 def extra_cases(tier, seed):
